@@ -62,6 +62,7 @@ class CallMixin:
         ob = self.pyobj(obj)
         if ob is not None:
             return self.getattr_pyobj(ob, obj, attr, name, node, default)
+        self.touch_object(obj)
         # class objects of symbolic class id (type(v) results)
         rint = z3.simplify(Val.r(obj))
         if any(rint.eq(x) for x in self.st.ghost.get("type_terms", ())) or \
